@@ -83,6 +83,13 @@ func honest(w *vt.Writer, t *dp.Topo, maxLen, maxJ int, st *stats) {
 	c := dp.NewControl(t, rng, maxLen)
 	c.Beacon()
 	n := dp.NewNet(c, dp.NetOpts{})
+	// the non-Linux flavour of sibling links (detachedLink sharing the internal connection)
+	var nDet *dp.Net
+	for _, a := range t.ASes {
+		if a.Routers > 1 && vt.Thorough() && nDet == nil {
+			nDet = dp.NewNet(c, dp.NetOpts{SiblingDetached: true})
+		}
+	}
 	w.Emit(map[string]any{"ev": "topo", "t": t.JSON()})
 	k := 0
 	for src := range t.ASes {
@@ -110,6 +117,11 @@ func honest(w *vt.Writer, t *dp.Topo, maxLen, maxJ int, st *stats) {
 				}
 				n.Run(w, src, dst, p, dp.JourneyOpts{ID: st.journeys, Mode: "honest", PT: "scion",
 					L4: "udp", HBH: k%3 == 0, E2E: k%4 == 1, Rev: rev, Rng: rng})
+				if nDet != nil {
+					st.journeys++
+					nDet.Run(w, src, dst, p, dp.JourneyOpts{ID: st.journeys, Mode: "honest",
+						PT: "scion", L4: "udp", E2E: k%2 == 0, Rev: rev, Rng: rng})
+				}
 				// the same path wrapped in EPIC-HP (every 3rd path in quick, all in thorough)
 				if p.Metadata.EpicAuths.SupportsEpic() && (vt.Thorough() || k%3 == 0) {
 					st.journeys++
@@ -302,7 +314,9 @@ func fault(w *vt.Writer, t *dp.Topo, st *stats) {
 	rng := vt.Rand(int64(len(t.Name)) + int64(t.Name[1]) + 900)
 	c := dp.NewControl(t, rng, 4)
 	c.Beacon()
-	base := dp.NewNet(c, dp.NetOpts{})
+	// SCMP authentication (SPAO) switched on for T2: the answers carry an E2E extension header
+	auth := t.Name == "T2"
+	base := dp.NewNet(c, dp.NetOpts{SCMPAuth: auth})
 	w.Emit(map[string]any{"ev": "topo", "t": t.JSON()})
 	paths := allPaths(t, c)
 	nets := map[string]*dp.Net{}
@@ -314,11 +328,11 @@ func fault(w *vt.Writer, t *dp.Topo, st *stats) {
 		var n *dp.Net
 		switch kind {
 		case "ifdown":
-			n = base.WithAS(as, dp.NetOpts{BFD: map[[2]int]bool{{as, int(ifid)}: true}})
+			n = base.WithAS(as, dp.NetOpts{SCMPAuth: auth, BFD: map[[2]int]bool{{as, int(ifid)}: true}})
 		case "noif":
-			n = base.WithAS(as, dp.NetOpts{Without: map[[2]int]bool{{as, int(ifid)}: true}})
+			n = base.WithAS(as, dp.NetOpts{SCMPAuth: auth, Without: map[[2]int]bool{{as, int(ifid)}: true}})
 		case "sibdown":
-			n = base.WithAS(as, dp.NetOpts{SiblingBFD: map[int]bool{as: true}})
+			n = base.WithAS(as, dp.NetOpts{SCMPAuth: auth, SiblingBFD: map[int]bool{as: true}})
 		case "expired":
 			c2 := dp.NewControl(t, vt.Rand(int64(len(t.Name))+int64(t.Name[1])+900), 4)
 			c2.ExpOf[as] = 0
